@@ -47,3 +47,36 @@ Proof.
     - reflexivity. }
   lia.
 Qed.
+
+(* ---- the parts of the steps form that are proved ---- *)
+(* a single step: the curve is the constant Round(speed) *)
+Lemma steps_single sensor x y T : eval_lin (mkLin sensor 0 0 (Some [(x, y)])) T = Val (f2i (goRound y)).
+Proof. reflexivity. Qed.
+
+(* at or below the first step: Round(first speed), not re-rounded to float32 *)
+Lemma steps_below_first sensor x0 y0 x1 y1 r T :
+  PrimFloat.leb (PrimFloat.div T 1000) (i2f x0) = true ->
+  eval_lin (mkLin sensor 0 0 (Some ((x0, y0) :: (x1, y1) :: r))) T = Val (f2i (goRound y0)).
+Proof. intros H. unfold eval_lin, interpolate. cbn [l_steps interp_loop andb]. rewrite H. reflexivity. Qed.
+
+(* strictly inside the first segment: Round(float32(y0 + Ratio * (y1 - y0))) *)
+Lemma steps_first_segment sensor x0 y0 x1 y1 r T :
+  let x := PrimFloat.div T 1000 in
+  PrimFloat.leb x (i2f x0) = false -> PrimFloat.leb (i2f x1) x = false -> PrimFloat.eqb x (i2f x0) = false ->
+  eval_lin (mkLin sensor 0 0 (Some ((x0, y0) :: (x1, y1) :: r))) T =
+  Val (f2i (goRound (to_f32 (PrimFloat.add y0 (PrimFloat.mul (Ratio x (i2f x0) (i2f x1)) (PrimFloat.sub y1 y0)))))).
+Proof. cbv zeta. intros H1 H2 H3. unfold eval_lin, interpolate. cbn [l_steps interp_loop andb]. rewrite H1, H2, H3. reflexivity. Qed.
+
+(* the statements that remain open (kept visible; exercised by the drivers, not proved):
+   value of the steps form at every temperature = Round(float32-rounded piecewise-linear interpolant)
+   within 1/2 + 2^-10 of the exact interpolant, and monotonicity for INTEGER non-decreasing speeds *)
+Definition is_int_speed (y : f64) : Prop := exists z, 0 <= z <= 255 /\ y = i2f z.
+Definition C07_steps_integer_full : Prop :=
+  forall sensor steps T1 T2 v1 v2,
+  steps <> [] -> keys_sorted steps -> Forall (fun kv => is_int_speed (snd kv)) steps -> speeds_nondec steps ->
+  PrimFloat.leb T1 T2 = true ->
+  eval_lin (mkLin sensor 0 0 (Some steps)) T1 = Val v1 ->
+  eval_lin (mkLin sensor 0 0 (Some steps)) T2 = Val v2 -> v1 <= v2.
+Definition C06_steps_range_full : Prop :=
+  forall sensor steps T, steps <> [] -> keys_sorted steps -> speeds_in_range steps -> is_nan T = false ->
+  exists v, eval_lin (mkLin sensor 0 0 (Some steps)) T = Val v /\ 0 <= v <= 255.
